@@ -11,8 +11,11 @@ import time
 import traceback
 
 HERE = os.path.dirname(os.path.dirname(os.path.abspath(__file__)))
-EVIDENCE_DIR = os.path.join(HERE, 'evidence')
-REPLAY_DIR = os.path.join(HERE, 'replays')
+# VX_OUT redirects what a run writes (used when the checks are pointed at a scratch worktree via VX_REPO, so that the
+# committed evidence of /repo is not overwritten)
+OUT = os.environ.get('VX_OUT') or HERE
+EVIDENCE_DIR = os.path.join(OUT, 'evidence')
+REPLAY_DIR = os.path.join(OUT, 'replays')
 KNOWN = os.path.join(HERE, 'known_findings.json')
 
 
@@ -41,7 +44,8 @@ def _worker(args):
 def _replay_subprocess(payload, timeout=300):
     """run concrete replays in a clean interpreter (no shims, no proxies) -> list of results"""
     env = dict(os.environ)
-    env['PYTHONPATH'] = '/repo:' + HERE
+    from vxlib.paths import REPO
+    env['PYTHONPATH'] = REPO + ':' + HERE
     env['PYTHONDONTWRITEBYTECODE'] = '1'
     p = subprocess.run([sys.executable, '-m', 'vxlib', 'replay-batch'], input=json.dumps(payload),
                        capture_output=True, text=True, env=env, timeout=timeout, cwd=HERE)
